@@ -79,6 +79,47 @@ def one(spec, batch, stats, cap, prop):
         b.dispose()
 
 
+def one_redeclared(spec, batch, stats, cap):
+    """the documented re-declaration idiom (X.__init__.__annotations__[f] = Annotated[...]) on classes that have already
+    been used: the creatable set must be the language of the grammar AS NOW DECLARED"""
+    from typing import Annotated
+    from geneticengine.grammar.metahandlers.ints import IntRange
+    from geneticengine.random.sources import NativeRandomSource
+    b = GR.build(spec)
+    try:
+        g0 = extract_grammar(b.considered, b.start)
+        d0 = int(g0.get_min_tree_depth()) + 1
+        rs = NativeRandomSource(3)
+        for _ in range(5):                     # use the classes once
+            try:
+                TreeBasedRepresentation(g0, MaxDepthDecider(rs, g0, d0)).create_genotype(rs)
+            except Exception:
+                pass
+        changed = 0
+        for c in spec["classes"]:
+            for (fname, f) in c["fields"]:
+                if f[0] == "ann" and f[1] == ("base", "int") and f[2][0] == "IntRange":
+                    b.classes[c["name"]].__init__.__annotations__[fname] = Annotated[int, IntRange(f[2][1] + 1, f[2][2] + 2)]
+                    changed += 1
+        if not changed:
+            return
+        g = extract_grammar(b.considered, b.start)
+        decl = declared_grammar(list(b.classes.values()), b.start)     # read again: the declaration as it now stands
+        mind = int(g.get_min_tree_depth())
+        evs = []
+        for d in range(max(mind, 1), mind + 2):
+            r = enumerate_set(g, "grow", d, cap)
+            if r is None or len(r[0]) > cap // 4:
+                break
+            evs.append({"e": "impl_set", "decider": "grow", "d": d, "programs": r[0], "errors": r[1], "phase": "single"})
+            stats["programs"] += len(r[0])
+        if evs:
+            batch.trace(spec["id"] + "/redeclared", evs, {"k": "c04", "g": decl})
+            stats["events"] += len(evs)
+    finally:
+        b.dispose()
+
+
 def one_c10(spec, batch, stats, cap):
     """the creatable set, enumerated on the SAME Grammar object before and after a workload that fails / backtracks"""
     from geneticengine.random.sources import NativeRandomSource
@@ -134,6 +175,9 @@ def main():
     else:
         for spec in specs + fam[: (30 if quick else 400)]:
             one(spec, batch, stats, cap, a.prop)
+        for spec in specs + fam[: (10 if quick else 100)]:
+            if GR.lang_size(spec, 3) <= cap:
+                one_redeclared(spec, batch, stats, cap)
     batch.traces = finalize(batch.traces)
     paths = batch.shards(a.out, a.shards)
     write_summary(a.out, {"batches": paths, "traces": len(batch.traces), "events": stats["events"],
